@@ -4,7 +4,7 @@ cd /verif
 for P in "$@"; do
   [ -f ${SEEDDIR:-/tmp/seeds}/$P/patch.diff ] || { echo "$P: no patch yet"; continue; }
   last=$(ls seeded | grep "^$P-" | sed "s/$P-//" | sort | tail -1)
-  next=$(echo "$last" | tr 'a-y' 'b-z')
+  if [ -z "$last" ]; then next=a; else next=$(echo "$last" | tr 'a-y' 'b-z'); fi
   name=$P-$next
   r=$(bash engine/confirm_seed.sh ${SEEDDIR:-/tmp/seeds}/$P $name 2>&1 | tail -1)
   if ! echo "$r" | grep -q "CONFIRMED=1"; then
